@@ -3,10 +3,10 @@ GO = "geometry/operations.py"
 MUTANTS = [
     # ---- C12
     dict(prop="C12", name="ge->gt in intervals_overlap", file=GO, old="return stop - start >= overlap", new="return stop - start > overlap"),
-    dict(prop="C12", name="min width -> max width", file=GO, old="min_width = min(stop1 - start1, stop2 - start2)", new="min_width = max(stop1 - start1, stop2 - start2)"),
+    dict(prop="C12", name="min width -> max width", file=GO, old="        min_width = min(\n            stop1 - start1,", new="        min_width = max(\n            stop1 - start1,"),
     dict(prop="C12", name="rel range check dropped upper", file=GO, old="if min_relative_overlap < 0 or min_relative_overlap > 1:", new="if min_relative_overlap < 0:"),
     dict(prop="C12", name="temporal overlap uses freq bounds of geom2", file=GO, old="    start_time_2, _, end_time_2, _ = compute_bounds(geom2)", new="    _, start_time_2, _, end_time_2 = compute_bounds(geom2)"),
-    dict(prop="C12", name="is_in_clip <= to <", file=GO, old="if end_time <= clip.start_time + minimum_overlap or", new="if end_time < clip.start_time + minimum_overlap or"),
+    dict(prop="C12", name="is_in_clip <= to <", file=GO, old="    if (end_time <= clip.start_time + minimum_overlap) or (", new="    if (end_time < clip.start_time + minimum_overlap) or ("),
     dict(prop="C12", name="is_in_clip negative guard removed", file=GO, old="    if minimum_overlap < 0:\n        raise ValueError(\"The minimum overlap must be non-negative.\")\n", new=""),
     dict(prop="C12", name="refactor: rename locals in intervals_overlap", file=GO, old="    start = max(start1, start2)\n    stop = min(stop1, stop2)", new="    stop = min(stop1, stop2)\n    start = max(start1, start2)", expect="clean"),
     # ---- C14
@@ -23,7 +23,7 @@ MUTANTS += [
     dict(prop="C03", name="TimeStamp < to <=", file=DG, old="        if v < 0:\n            raise ValueError(\"The time must be positive.\")", new="        if v <= 0:\n            raise ValueError(\"The time must be positive.\")"),
     dict(prop="C03", name="BoundingBox box not sorted in frequency", file=DG, old="        if low_freq > high_freq:\n            low_freq, high_freq = high_freq, low_freq\n", new=""),
     dict(prop="C03", name="Polygon ring needs only 2 points", file=DG, old="            if len(ring) < 3:\n                raise ValueError(\"The ring must have at least three points.\")", new="            if len(ring) < 2:\n                raise ValueError(\"The ring must have at least three points.\")"),
-    dict(prop="C03", name="MultiLineString allows equal start/end", file=DG, old="            if not start_time < end_time:", new="            if not start_time <= end_time:"),
+    dict(prop="C03", name="MultiLineString allows equal start/end", file=DG, old="            if not (start_time < end_time):", new="            if not (start_time <= end_time):"),
     dict(prop="C03", name="LineString never reversed", file=DG, old="        if start_time > end_time:\n            return v[::-1]\n", new=""),
     dict(prop="C03", name="MultiPoint freq upper bound uses >= ", file=DG, old="""        if len(v) < 1:
             raise ValueError("The multipoint must have at least one point.")
@@ -46,4 +46,41 @@ MUTANTS += [
     )""", new="""    def _validate_coordinates(
         cls, v: List[List[List[List[float]]]]
     )"""),
+]
+GC = "geometry/conversion.py"
+GF = "geometry/features.py"
+MUTANTS += [
+    dict(prop="C05", name="bounding box args swapped", file=GC, old="        start_time,\n        low_freq,\n        end_time,\n        high_freq,\n    )", new="        start_time,\n        end_time,\n        low_freq,\n        high_freq,\n    )"),
+    dict(prop="C05", name="polygon holes include shell", file=GC, old="    shell = geom.coordinates[0]\n    holes = geom.coordinates[1:]\n    return geometry.Polygon(shell, holes)", new="    shell = geom.coordinates[0]\n    holes = geom.coordinates[0:]\n    return geometry.Polygon(shell, holes)"),
+    dict(prop="C05", name="time interval band starts at 1 Hz", file=GC, old="        start_time,\n        0,\n        end_time,", new="        start_time,\n        1,\n        end_time,"),
+    dict(prop="C05", name="multipolygon drops last polygon", file=GC, old="    for poly in geom.coordinates:", new="    for poly in geom.coordinates[:-1]:"),
+    dict(prop="C05", name="center-left uses end_time", file=GO, old='        "left": start_time,', new='        "left": end_time,'),
+    dict(prop="C05", name="center divides by 3", file=GO, old="        return (start_time + end_time) / 2, (low_freq + high_freq) / 2", new="        return (start_time + end_time) / 2, (low_freq + high_freq) / 3"),
+]
+MUTANTS += [
+    dict(prop="C05", name="polygon features: low/high swapped", file=GF, old="""    geom = geometry_to_shapely(geometry)
+    start_time, low_freq, end_time, high_freq = geom.bounds
+
+    return [
+        Feature(term=terms.duration, value=end_time - start_time),
+        Feature(term=terms.low_freq, value=low_freq),
+        Feature(term=terms.high_freq, value=high_freq),
+        Feature(term=terms.bandwidth, value=high_freq - low_freq),
+    ]
+
+
+def _compute_multi_point_features(""", new="""    geom = geometry_to_shapely(geometry)
+    start_time, low_freq, end_time, high_freq = geom.bounds
+
+    return [
+        Feature(term=terms.duration, value=end_time - start_time),
+        Feature(term=terms.low_freq, value=high_freq),
+        Feature(term=terms.high_freq, value=low_freq),
+        Feature(term=terms.bandwidth, value=high_freq - low_freq),
+    ]
+
+
+def _compute_multi_point_features("""),
+    dict(prop="C05", name="point features: bandwidth term replaced by duration term", file=GF, old="        Feature(term=terms.bandwidth, value=0),", new="        Feature(term=terms.duration, value=0),"),
+    dict(prop="C05", name="feature table: Point -> line string function", file=GF, old="    geometries.Point.geom_type(): _compute_point_features,", new="    geometries.Point.geom_type(): _compute_line_string_features,"),
 ]
